@@ -93,6 +93,43 @@ REG['C01'] = dict(
          'and np.round; guess_line_heights_from_polygon (lines without stored heights are covered by the fixpoint oracle only).',
     technique='Lean 4 proof (printer/parser round trips, tree round trip, stable sort laws) + differential correspondence via lxml',
     ref='§5-C01')
+REG['C06'] = dict(
+    text='Lean 4 theorems: the Arabic order conversion (literal state machine of ArabicHelper._reverse) only permutes characters and '
+         'is an involution, for EVERY classification of characters and every string; in both export branches (alignable or not) the '
+         'String contents are exactly the whitespace-separated words of the transcription through the conversion and the export of a '
+         'line never raises (as many word spans as words; the separator test is REGENERATED from the source); str.split() neither '
+         'loses nor invents characters; a line is exported iff non-blank; get_hwvh is the bounding box; the print space is the '
+         'bounding box of the blocks and the four margins cover the rest of the page; word confidences are medians of values in [0,1] '
+         '(C16). Correspondence: order conversion exhaustive over a 9-symbol class alphabet + random strings (exact); words/SP count '
+         'and print-space/margin integers of the real to_altoxml_string vs the model; oracle on the real export and re-import.',
+    note='Trusted / not decided: lxml; String/word GEOMETRY beyond "integer-valued" (get_crop_inputs, cf. C10); which lines align '
+         '(C05) is an input of the word model. Observation: word confidences of lines with repeated blanks are taken from a shifted '
+         'slice (still in [0,1]).',
+    technique='Lean 4 proof (simulation to a simpler machine + involution by strong induction; run counting; fold invariants) + differential correspondence',
+    ref='§5-C06')
+REG['C10'] = dict(
+    text=PARTIAL + 'Lean 4 theorems for the discrete/algebraic skeleton of cropping: rows are a linear ramp from -h0*s to +h1*s '
+         '(np.linspace model), the width is floor(arc*H/((h0+h1)*s)), exact bilinear sampling through the sub-image equals sampling '
+         'the page whenever the sample lies in the floor/ceil box (fast path = general path) and is a convex combination, every '
+         'evaluation point of the cubic interpolant is admissible (flag REGENERATED from the source; kernel-checked witness that it '
+         'was not before the fix), crop always returns the configured height and is blank iff the inner computation raised. NOT '
+         'decided by proof: uniform advance along the fitted curve, perpendicularity, shift equivariance in floating point '
+         '(polyfit, splines, atan2, arc length, cv2 fixed-point) - judged only by a geometric oracle on the real output.',
+    note='Trusted: cv2.remap is bilinear sampling with constant border (model vs cv2 within one grey level at 1/32-px coordinates); '
+         'SciPy interp1d, NumPy polyfit/linspace; float rounding.',
+    technique='Lean 4 proof (floor/convexity arguments over Q) over a model with a generated flag + geometric oracle (partial)',
+    ref='§5-C10')
+REG['C11'] = dict(
+    text=PARTIAL + 'Lean 4 theorems with shapely as a parameter (mask): the id scheme region-l%03d is injective and all ids of one '
+         'assignment are distinct; ids stay distinct across the orientation passes over given regions (flag REGENERATED from the '
+         'source); the bounding-box pre-filter never discards a line whose box lies in the region\'s box (unless a single point) and '
+         'rejects boxes separated in both axes; what a region stores is exactly mask\'s answer for the candidates, in line order, '
+         'with the line\'s heights; a line mask rejects is never placed; the longest piece is the first maximum. NOT decided by '
+         'proof: everything shapely computes (clipped baseline a piece of the detected one and inside the region, outline clipped, '
+         'inside-lines unchanged, untouched never placed) - judged by an independent float-geometry oracle on the real output.',
+    note='Trusted: shapely; float32 casts of coordinates < 2^24; merge loop termination (assumed).',
+    technique='Lean 4 proof (string injectivity, fold invariants) with shapely as a parameter + geometry oracle (partial)',
+    ref='§5-C11')
 REG['C07'] = dict(
     text='Lean 4 theorems over a model of process_lines batching: the processing order is a permutation (stable, descending '
          'width); the batches partition it (no empty batch, every line in exactly one batch), hence every input position gets '
